@@ -454,6 +454,10 @@ def run_tests(options, tests, name, failures, errors, skipped, import_errors):
             elif iteration > 0:
                 output.refcounts(rc, prev)
 
+        if result.shouldStop:
+            # --stop-on-error: do not start the next --repeat iteration
+            break
+
     return ran
 
 
